@@ -1,9 +1,5 @@
 package rules
 
-import "golang.org/x/tools/go/ssa"
-
-func (c *Ctx) checkUnits(rule string, reach map[*ssa.Function]bool, feeOnly bool) {}
-func (c *Ctx) checkSolLock()                                                    {}
-func (c *Ctx) checkConnectorAmount()                                            {}
-
-func (c *Ctx) checkKeysGenerator() {}
+func (c *Ctx) checkSolLock()         {}
+func (c *Ctx) checkConnectorAmount() {}
+func (c *Ctx) checkKeysGenerator()   {}
